@@ -498,17 +498,17 @@ def plan(tier, seed):
     for s in range(len(sa)):
         specs.append(dict(name="cache-small-%d" % s, kind="cacheall", alpha="small", first=[s], maxlen=4 if tier == "quick" else 6))
     for i in range(3):
-        specs.append(dict(name="cache-random-%d" % i, kind="cacherandom", n=100 if tier == "quick" else 1500))
+        specs.append(dict(name="cache-random-%d" % i, kind="cacherandom", n=150 if tier == "quick" else 10000))
     na = node_alphabet()
     for s in range(8):
         specs.append(dict(name="node-all-%d" % s, kind="nodeall", first=list(range(s, len(na), 8)), maxlen=2 if tier == "quick" else 3))
     for i in range(3):
-        specs.append(dict(name="node-random-%d" % i, kind="noderandom", n=300 if tier == "quick" else 4000))
+        specs.append(dict(name="node-random-%d" % i, kind="noderandom", n=800 if tier == "quick" else 20000))
     n2 = node2_alphabet()
     for s in range(6):
         specs.append(dict(name="node2-all-%d" % s, kind="node2all", first=list(range(s, len(n2), 6)), maxlen=2 if tier == "quick" else 3))
     for i in range(2):
-        specs.append(dict(name="node2-random-%d" % i, kind="node2random", n=400 if tier == "quick" else 5000))
+        specs.append(dict(name="node2-random-%d" % i, kind="node2random", n=1000 if tier == "quick" else 20000))
     return specs
 
 
